@@ -21,7 +21,7 @@ open(p, "w").write(s.replace(a, b))
 P
 }
 # --- seeded changes (round 1-3) ---
-for sd in C07-1 C07-2 C07-3 C07-4 C07-5 C07-6 C09-1 C09-2 C09-3 C09-4 C09-5 C09-6 C18-1 C18-2 C18-3 C18-4 C18-5 C18-6 C19-1 C19-2 C19-3 C19-4 C19-5 C19-6; do
+for sd in C07-7 C07-8 C09-7 C09-8 C18-7 C18-8 C19-7 C19-8 C07-1 C07-2 C07-3 C07-4 C07-5 C07-6 C09-1 C09-2 C09-3 C09-4 C09-5 C09-6 C18-1 C18-2 C18-3 C18-4 C18-5 C18-6 C19-1 C19-2 C19-3 C19-4 C19-5 C19-6; do
   git -C $SEEDREPO apply /verif/seeded/$sd/patch.diff && run "seed $sd" ${sd%%-*} M
 done
 # --- translator (partnames2coq) ---
@@ -56,3 +56,8 @@ edit api.py "        self._base_dtype = getattr(self, \"_given_dtypes\", None)
 
     def _sort_part_names"
 run "handle attributes not refreshed after write_row_groups" C09 M
+
+# --- wave 4 ---
+git -C $SEEDREPO revert -n 8453df6 >/dev/null 2>&1; run "fix 8453df6 reverted: failed write_row_groups inside one-handle histories" C09 M; git -C $SEEDREPO revert --abort 2>/dev/null; git -C $SEEDREPO reset -q --hard
+# the ns -> TIMESTAMP_MICROS append fix (branch fix-w3-dsedit) absent: run C07 against plain /repo main
+# (VERIF_REPO=<worktree of /repo main without the fix> ./check C07 --tier quick  -> values-differ on a mixed-unit batch)
